@@ -29,13 +29,21 @@ txt = f"""## 12. Seeded changes: which checks catch which
 Each change below was written by a fresh sub-agent that was given only the text
 of one property and its own scratch worktree of `/repo` (nothing from
 `/verif`), with the request for a change that still passes the unit tests and
-needs something specific to manifest. There were four rounds (names without a
-round tag, `-r2-`, `-r3-`, `-r4-`): each later round was told what the earlier
+needs something specific to manifest. There were six rounds (names without a
+round tag, `-r2-` ... `-r6-`): each later round was told what the earlier
 ones had produced and asked for other functions and code paths; the third was
 steered towards silent wrong data behind unusual but legitimate combinations,
 the fourth towards state that survives between calls or objects (caches,
 reused buffers, in-place modification of caller arguments, second invocations,
-error paths that swallow failures). Every
+error paths that swallow failures), the fifth towards breadth (refactorings,
+NumPy/Python upgrades, the LAST chunk/slice/scale, integer widths, defaults),
+and the sixth was told to imagine a sampling checker and evade it (magnitudes
+above 2^16/2^24/2^31, NaN and infinities, big-endian files, `python -O`, exit
+without close, symlinks, glob characters, servers without HEAD). After the two
+repairs of `/repo` made on the way (69c193f, 9262957) the older patches that
+no longer applied were rebased by hand (`patch.orig.diff` kept beside the
+rebased `patch.diff`). `tools/reeval_seeds.py` re-runs every stored change
+against the current checks. Every
 change was then confirmed here (`tools/seed_eval.py`): the patch applies to
 `/repo` HEAD, the unit tests still give 340 passed / 2 failed, the author's
 demonstration passes on the clean tree and fails on the patched one. It is kept
